@@ -28,7 +28,7 @@ struct TimeGhostImpl : TimeGhost {
   std::map<uint64_t, MsgTime> mt;            // by message number
   bool c15, c16;
   bool daemon_ready = false; int64_t daemon_since_idle = 0; bool exiting = false; bool clean_exit_pending = false; bool last_exit_clean = false;
-  bool progress_since_select = true; int idle_wakeups = 0; int zero_selects = 0; int max_zero_selects = 0; int alrm_countdown = 0;
+  int64_t pause_until = 0; bool progress_since_select = true; int idle_wakeups = 0; int zero_selects = 0; int max_zero_selects = 0; int alrm_countdown = 0;
   bool alrm_obligation = false; int64_t alrm_t = 0; std::set<std::pair<uint64_t, int>> alrm_waiting;
   int pass_owner_fd[2] = {-1, -1}; uint64_t pass_owner_n[2] = {0, 0};
   int jobs_in_use() { int j = 0; for (auto &p : mt) for (int c = 0; c < 2; c++) if (p.second.c[c].exists && (p.second.c[c].in_pass || p.second.c[c].outstanding > 0)) j++; return j; }
@@ -181,6 +181,9 @@ struct TimeGhostImpl : TimeGhost {
         break;
       default: break;
     }
+    // "alert: unable to opendir ..., sleeping" (and the other pause-and-retry alerts): the daemon deliberately waits ten seconds
+    // before it tries the failing operation again; nothing is due to happen during that pause
+    if (e.call == C_WRITE && e.path.compare(0, 5, "sink:") == 0 && e.data && e.len >= 6 && std::string(e.data, e.len).find("sleeping") != std::string::npos) pause_until = w->k->clock + 11;
     // progress = the daemon changed something or talked to somebody (not: closing/reopening the trigger and scanning directories)
     if ((e.call == C_WRITE && e.ret > 0) || (e.call == C_READ && e.ret > 0) || e.call == C_UNLINK || e.call == C_LINK || e.call == C_RENAME || e.call == C_FORK || e.call == C_UTIMES || e.call == C_FSYNC || e.call == C_EXIT || (e.call == C_OPEN && (e.b & (1 << 20)))) progress_since_select = true;
     if (e.call != C_SELECT && e.call != C_WRITE /* log */) zero_selects = 0;
@@ -192,6 +195,7 @@ struct TimeGhostImpl : TimeGhost {
     if (!daemon_ready || exiting) return;
     Kernel *k = w->k;
     Proc *sp = k->find_proc(w->send_pid); if (!sp || sp->st != Proc::LIVE) return;
+    if (k->clock < pause_until) { k->probe("daemon_pausing_after_alert"); return; }
     // C16(1): a completed injection must not be left waiting while the whole system sleeps
     if (c16) for (auto &pr : mt) { MsgTime &x = pr.second; if (x.injector_ok && !x.noticed && (pr.second.m->phase == GMsg::QUEUED)) {
         int64_t idle_so_far = k->idle_total - std::max(x.idle_at_completion, daemon_since_idle);
